@@ -156,9 +156,17 @@ func Case(w *vt.W, rng *rand.Rand, id, maxLen int) {
 	} else {
 		Q = randSeq(rng, 2000+rng.Intn(maxLen-1999))
 		used := 0
+		family := rng.Intn(3) == 0
 		for i := 0; i < nplants; i++ {
 			ta := rng.Intn(len(T) - 10)
 			a, b, rev, subs, indels, cp := place(T, ta, len(Q)/nplants-2)
+			if i > 0 && family {
+				// a repeat family: the very same target segment copied once more, unchanged, elsewhere in the query
+				// (the two hits then begin and end at the same target coordinates)
+				first := plants[0]
+				a, b, rev, subs, indels = first.TA, first.TB, false, 0, 0
+				cp = append([]byte{}, T[a:b]...)
+			}
 			qa := used + rng.Intn(len(Q)/nplants-len(cp)-1)
 			copy(Q[qa:qa+len(cp)], cp)
 			used = (i + 1) * len(Q) / nplants
